@@ -17,7 +17,8 @@
 (* GenSet: "h1" .. "h4" = all histories of exactly that length (both       *)
 (* window flags); "upto2", "upto3" = all histories up to that length;      *)
 (* "h4s" = a seeded tenth of the histories of length four; "restart" = one *)
-(* interface reconfigured forty times in a row (no window traffic).        *)
+(* interface reconfigured forty times in a row (no window traffic);        *)
+(* "quick" = upto2 + restart, "thorough" = upto3 + h4s + restart.          *)
 (***************************************************************************)
 EXTENDS Reconfig, ReconfigDom, Json
 CONSTANTS GenSet, Seed
@@ -44,6 +45,8 @@ Scheds == CASE GenSet = "h1" -> Hist(1)
             [] GenSet = "upto2" -> Hist(1) \cup Hist(2)
             [] GenSet = "upto3" -> Hist(1) \cup Hist(2) \cup Hist(3)
             [] GenSet = "h4s" -> Hist4Sample
+            [] GenSet = "quick" -> Hist(1) \cup Hist(2) \cup RestartScheds
+            [] GenSet = "thorough" -> Hist(1) \cup Hist(2) \cup Hist(3) \cup Hist4Sample \cup RestartScheds
             [] GenSet = "restart" -> RestartScheds
 
 GenInit == Init /\ sched \in Scheds /\ pos = 1 /\ hist = <<>> /\ done = FALSE
